@@ -9,7 +9,7 @@ UNRESERVED = b"ABCDEFGHIJKLMNOPQRSTUVWXYZabcdefghijklmnopqrstuvwxyz0123456789-._
 
 # characters a URI path may carry as they are besides the unreserved ones (RFC 3986 pchar: sub-delims, ':' and '@');
 # the parentheses are listed separately because the embedded server's tokenizer takes '(' for the start of a comment
-PATH_RAW_OK = b"!$&'*+,;=:@"
+PATH_RAW_OK = b"!$&'*+,;=:@()"
 
 
 def pct_encode(b, keep=b"/", always=False, rnd=None, raw_ok=b""):
